@@ -490,7 +490,7 @@ func formatLayers(tier string) []Layer {
 		layers = append(layers, Layer{
 			Name:   "V1-text",
 			Units:  len(base),
-			Bounds: fmt.Sprintf("x = c×10^e for c in D(%d) ∪ 23 tie/all-nines/long (multi-word, leading 5) literals ∪ 5- and 9-word mantissas of one repeated word with a zero word at every index, decimal-point positions %v, ±, plus ±0, ±Inf; x.mode in 6 modes; formats e,E,f,g,G,p,b; precisions %v; Append == Text", k, exps, precs),
+			Bounds: fmt.Sprintf("x = c×10^e for c in D(%d) ∪ 23 tie/all-nines/long (multi-word, leading 5) literals ∪ 5- and 9-word mantissas of one repeated word with a zero word at every index, decimal-point positions %v, ±, plus ±0, ±Inf; x.mode in 6 modes; formats e,E,f,g,G,p,b; precisions %v; Append onto buffers that already hold digits, points, exponents == prefix + Text", k, exps, precs),
 			Run: func(c *Ctx, u int) {
 				for _, e := range exps {
 					for _, neg := range []bool{false, true} {
@@ -516,6 +516,18 @@ func formatLayers(tier string) []Layer {
 								a := string(x.Append([]byte("xy"), 'g', 3))
 								if a != "xy"+x.Text('g', 3) {
 									c.Fail("Append x="+xo.String(), fmt.Sprintf("Append = %q, Text = %q", a, x.Text('g', 3)))
+								}
+								// what is already in the buffer (digits, a radix point, an exponent, zeros) is not Append's business
+								for _, pre := range []string{"2.5 ", "1.0e+00", "0.", "100", "-.5e-0700"} {
+									for _, fp := range []struct {
+										f byte
+										p int
+									}{{'g', -1}, {'g', 3}, {'G', 0}, {'f', 2}, {'e', -1}} {
+										buf := append(make([]byte, 0, 8), pre...)
+										if a := string(x.Append(buf, fp.f, fp.p)); a != pre+x.Text(fp.f, fp.p) {
+											c.Fail(fmt.Sprintf("Append(%q, %c, %d) x=%s", pre, fp.f, fp.p, xo.String()), fmt.Sprintf("Append = %q, Text = %q", a, x.Text(fp.f, fp.p)))
+										}
+									}
 								}
 								if x.String() != x.Text('g', 10) {
 									c.Fail("String x="+xo.String(), "String() != Text('g', 10)")
